@@ -12,6 +12,9 @@ FEATURES = ('bytes', 'bools', 'strings', 'arrays', 'globals', 'overloads',
             'sleep', 'early_ret', 'compound')
 
 
+BIG = False      # set by the thorough tier: larger programs for every other case
+
+
 def swarm_cfg(rnd, W=None, **over):
     cfg = {f: rnd.random() < 0.7 for f in FEATURES}
     cfg['W'] = W if W is not None else rnd.choice((2, 2, 2, 2, 3, 3, 4, 4, 8, 8, 5, 6, 7))
@@ -19,6 +22,11 @@ def swarm_cfg(rnd, W=None, **over):
     cfg['n_stmts'] = rnd.randrange(4, 14)
     cfg['depth'] = rnd.randrange(1, 4)
     cfg['expr_depth'] = rnd.randrange(1, 4)
+    if BIG and rnd.random() < 0.5:
+        cfg['n_funcs'] = rnd.randrange(2, 8)
+        cfg['n_stmts'] = rnd.randrange(10, 30)
+        cfg['depth'] = rnd.randrange(2, 5)
+        cfg['expr_depth'] = rnd.randrange(2, 5)
     cfg.update(over)
     return cfg
 
